@@ -79,6 +79,24 @@ CHECKS = {
         "text": "discharge_only_after_approval, not_ready_before_decision, abort_delivers_error, approve_delivers_discharge, gone_after_collection, unknown_secret_not_found, cross_used_secret_not_found, bad_ticket_short_circuits, not_found_is_silent are proved for every history (any number of flows, any secrets presented, arbitrary LRU evictions); il_discharge_only_after_approval, il_unknown_secret_not_found, il_cross_used_not_inserted and il_gone_after_collection_hb (happens-before form: handlers that start after a delivering poll returned) are proved for every interleaving of store operations; sequential_schedule_refines ties the two semantics; racing_polls_both_answered records (decide) that two polls racing on one secret can both be answered because DeleteByPollSecret is get-then-remove - not a violation, the property speaks about polls after collection. Partial: the concurrent half rests on every store operation being atomic (LRU lock, per-record RWMutex), Delete split in two.",
         "note": "tie is differential (family tp): random histories (<=20 actions, 1-4 flows) with real tickets (valid, bit-flipped, foreign-key, empty, garbage, unparsable request) and right/wrong/swapped/never-issued/empty secrets; every returned discharge is verified against every pool token; sched lines replay the exact store-operation interleaving incl. the store-operation log; LRU evictions are observed after each Insert and fed to the model. Idealised: BLAKE2b injective, 128-bit secrets fresh and unguessable, discharge cryptography abstracted (C04/C05), one responder call per init request.",
     },
+    "C20": {
+        "props": "Macaroon.Props.C20",
+        "families": ["client"],
+        "pobs": "line",
+        "technique": "Lean 4 proof (closed form of the option fold; induction over scripted third-party answers; transliteration of net/url go1.23.5 with a component-wise host lemma) + differential correspondence model/Go against an in-process recording RoundTripper, all permutations of <=5 options",
+        "design_ref": "DESIGN.md §3 C20",
+        "text": "attach_iff, hostname_of_built_url (+ built_url_host, port_scheme_path_ignored, trusted_name_elsewhere_is_not_the_host, subdomain_superdomain_get_nothing, other_hosts_get_nothing), init_request_gets_credential, options_order_irrelevant, inner_transport, every_request_through_attach, credential_only_to_its_host, ignored_never_contacted, ignored_iff, result_header are proved for all option lists, URLs over the net/url component alphabets, and all scripted third parties; in_place_header_leaks_to_subdomain is the negative witness for RoundTrip writing into the caller's request (F13, repaired)",
+        "note": "tie is differential (family client). net/url outside the modelled shapes ('%' in the authority zone, invalid UTF-8, relative redirect Locations) is skipped-and-counted on both sides; net/http redirect handling (fresh RoundTrip per hop, header copy rule, 10-request limit, Basic from userinfo) is modelled, exercised, not verified. The collected-discharge order is compared as a multiset.",
+    },
+    "C11": {
+        "props": "Macaroon.Props.C11",
+        "families": ["wire"],
+        "pobs": "line",
+        "technique": "Lean 4 proof (byte-level msgpack round trip dec/enc in both directions by mutual structural recursion; typed codec round trip, injectivity, re-encode fixed point for every accepted byte string, order-independence of the resource-set normal form) + differential correspondence model/Go on canonical and loosened encodings",
+        "design_ref": "DESIGN.md §3 C11",
+        "text": "decode_encode_cavs / _mac / _ticket (every well-formed value of every registered kind, nested wrappers, unknown types), encCav_injective, encCavSet_injective, encNonce_injective, reencode_fixed_point (for EVERY accepted byte string: the decoded caveats are canonical and re-decoding their encoding is the identity, with fuel+2 since the canonical form can nest two levels deeper), reencode_stable, encode_order_independent (lookup, permutation and bytes forms: the encoding factors through the final Go map, not the insertion order), unregistered_passthrough (byte for byte), unknown_type_is_kept are proved in Lean on top of the byte-level theorems dec_enc / enc_dec (Lemmas/Msgpack.lean). signed_is_cleared is the structural fact verify_returns_carried/verify_char of C01/C04 (the values returned are the values MACed). JSON half: not modelled yet (partial).",
+        "note": "tie is differential (family wire): Go encoder bytes == model encoder bytes for every generated value with maps rebuilt in random insertion orders; Go decode / re-encode == model on canonical bytes and on loosened encodings (wider/signed ints, str<->bin, longer length headers, map-encoded structs with shuffled and unknown keys). Not modelled (excluded from the theorems' domain and from the generators): ext headers in front of map lengths, wire nil for []byte fields (read as empty), duplicate fields in map-encoded structs merging Go maps. JSON rendering (encoding/json) is outside the model: partial.",
+    },
 }
 
 # reasons for properties not claimed yet (MANIFEST.not_applicable)
